@@ -188,6 +188,7 @@ def run_stack(sc, sim, np_seed, eager=False):
         again = stack if not isinstance(stack, np.ndarray) else da.from_array(X, chunks=(max(1, X.shape[0] // 3),) + X.shape[1:])
         out["tr_again"] = np.asarray(clf.transform(again))
         out["pred"] = np.asarray(clf.predict(again))
+        out["centers"] = np.asarray(clf.kmeans.cluster_centers_, dtype=np.float64)
         # plain numpy images are accepted too (the repository's own test passes them); the caller's array must survive
         Xn = X[: min(6, X.shape[0])].copy()
         Xn_sum = digest(Xn)
@@ -228,7 +229,12 @@ def check_stack(sc, sim):
         raise V("projections-detached", "get_transform", f"get_transform({out['sel']}) does not return the projections of those images in that order")
     if out["tr_again"].shape != out["tr"].shape or np.abs(out["tr_again"] - out["tr"]).max() > 1e-4 * scale_:
         raise V("projections-detached", "transform", "transform(stack) differs from the projections of the fitted stack")
-    if out["pred"].tolist() != out["labels"].tolist():
+    # predict() must reproduce the fitted labels, except for images (numerically) equidistant from two cluster centres,
+    # where a last-bit difference between the two projections may legitimately flip the assignment
+    dist = np.sqrt(((out["tr"].astype(np.float64)[:, None, :] - out["centers"][None, :, :]) ** 2).sum(axis=2))
+    ds = np.sort(dist, axis=1)
+    clear = (ds[:, 1] - ds[:, 0]) > 1e-4 * scale_ if ds.shape[1] > 1 else np.ones(len(ds), bool)  # also: coincident centres
+    if (out["pred"][clear] != out["labels"][clear]).any():
         raise V("projections-detached", "predict", "predict(stack) differs from the labels of the fitted stack")
     if not out["np_input_kept"]:
         raise V("inputs-modified", "transform", "transform(numpy images) modified the caller's array")
